@@ -409,6 +409,13 @@ func malformedList() []malformed {
 			addRaw(kind, fmt.Sprintf("chunk size %q", sz), start+"Transfer-Encoding: chunked\r\n\r\n"+sz+"\r\nabc\r\n0\r\n\r\n", client, true)
 			addRaw(kind, fmt.Sprintf("second chunk size %q", sz), start+"Transfer-Encoding: chunked\r\n\r\n1\r\nz\r\n"+sz+"\r\nabc\r\n0\r\n\r\n", client, true)
 		}
+		// chunk sizes at the edge of the integer range: they fit an int64, so they need not be
+		// rejected, but position + size arithmetic must not wrap (no panic, no delivery of
+		// out-of-range data); added after a seeded change with exactly this shape was missed
+		for _, sz := range []string{"7fffffffffffffff", "7ffffffffffffff0", "7ffffffffffffffe", "007fffffffffffffff", "7fffffffffffffff;x", "7fffffff", "80000000", "ffffffff", "100000000"} {
+			addRaw("lenient:chunk-size-near-int-max", fmt.Sprintf("chunk size %q", sz), start+"Transfer-Encoding: chunked\r\n\r\n"+sz+"\r\nabc\r\n0\r\n\r\n", client, false)
+			addRaw("lenient:chunk-size-near-int-max", fmt.Sprintf("second chunk size %q", sz), start+"Transfer-Encoding: chunked\r\n\r\n1\r\nz\r\n"+sz+"\r\nabc\r\n0\r\n\r\n", client, false)
+		}
 		// lenient forms, recorded but not judged (status under RFC 7230 arguable or outside the
 		// statement's list)
 		addRaw("lenient:chunk-size-0x3", "chunk size 0x3", start+"Transfer-Encoding: chunked\r\n\r\n0x3\r\nabc\r\n0\r\n\r\n", client, false)
